@@ -25,6 +25,7 @@ def dispatch (line : String) : String :=
     | "join" => Drivers.Join.handleJoin args
     | "intr" => Drivers.Join.handleIntr args
     | "followi" => Drivers.Join.handleFollowI args
+    | "onres" => Drivers.Join.handleOnRes args
     | _ => "unknown-kind"
   | _ => "bad-line"
 
